@@ -90,7 +90,8 @@ def gen_rcap(rng, heavy):
 
 
 def closing(nframes_bound, with_shutdown):
-    ops = [["s" if with_shutdown else "f", []]] * 1
+    """clean flush (or shutdown) + enough reads to drain: a read delivers at most one frame."""
+    ops = [["s" if with_shutdown else "f", []]]
     ops += [["r", 70000, []] for _ in range(nframes_bound + 2)]
     return ops
 
@@ -141,7 +142,7 @@ def gen_stream(rng, heavy=False, tamper=False):
     closed = rng.chance(9, 10)
     if closed:
         nwrites = sum(1 for o in ops if o[0] in ("w", "f", "s"))
-        ops += closing(2 * nwrites + 2, shut or rng.chance(1, 3))
+        ops += closing(nwrites, shut or rng.chance(1, 3))
     kind = "heavy" if heavy else (("tamper:" + [o for o in ops if o[0] == "t"][0][1]) if tamper else "light")
     return {"kind": "stream", "dir": rng.below(2), "salt": rng.below(1 << 30), "ops": ops, "class": kind,
             "closed": closed}
@@ -306,6 +307,7 @@ def predicate_stream(c, o):
     flushed = False
     drained = False
     frames = o["frames"]
+    has_no_tamper = not any(op[0] == "t" for op in c["ops"])
     starts = []
     off = 0
     for L in frames:
@@ -325,6 +327,12 @@ def predicate_stream(c, o):
             if e[0] == 3 and e[2] > 0:
                 consumed += e[2]
         k = op[0]
+        if k in ("w", "f", "s") and res[0] == 2:
+            sc = op[2] if k == "w" else op[1]
+            if res[1] == 4 or (res[1] == 1 and 0 not in sc) or (res[1] == 2 and not any(z < -1 for z in sc)):
+                bad.append({"op": idx, "failed": f"writer failed (error class {res[1]}) although the transport did not"})
+        if k == "r" and res[0] == 2 and has_no_tamper and (res[1] == 3 or (res[1] == 2 and not any(z < -1 for z in op[2]))):
+            bad.append({"op": idx, "failed": f"reader failed (error class {res[1]}) on an untampered stream"})
         if k == "w":
             flushed = False if op[1] > 0 else flushed
             drained = False
@@ -504,7 +512,7 @@ def run(rep):
     if tier == "quick":
         sizes = (260, 20, 140, 250)
     else:
-        sizes = (9000, 600, 5000, 6000)
+        sizes = (6000, 400, 3500, 4000)
     cases = corpus_cases() + gen_cases(rng, *sizes)
     # heavy cases first so that the parallel shards finish together
     order = sorted(range(len(cases)), key=lambda i: 0 if cases[i].get("class") == "heavy" else 1)
@@ -519,8 +527,8 @@ def run(rep):
     sample_ids = [i for i, c in enumerate(cases) if c.get("class", "").startswith("tamper")][:2] + \
                  [i for i, c in enumerate(cases) if c.get("class") == "buf"][:1] + \
                  [i for i, c in enumerate(cases) if c.get("class") == "light"][:1]
-    # spread the heavy cases over the shards
-    nsh = max(1, min(16 if tier == "quick" else 64, (len(coq_cases) + 19) // 20))
+    # spread the heavy cases over the shards; ~40 cases per shard keeps a coqc process near 1.5 GB
+    nsh = max(1, (len(coq_cases) + 39) // 40)
     shards = [[] for _ in range(nsh)]
     for k, x in enumerate(heavy + light):
         shards[k % nsh].append(x)
@@ -593,12 +601,16 @@ def run(rep):
     ]
 
 
-PARTIAL = ("Proved for every operation list, script and write size: no panic / no fuel exhaustion, buffer bounds, "
-           "poll_write result, frame bounds, delivered = prefix of accepted (untampered and, under the authenticity "
-           "premise, tampered), equality after flush + drain. Not proved in Coq: that concrete byte-level tamperings "
-           "(bit flips) satisfy the authenticity premise - that is the cryptographic assumption H-AEAD itself; "
-           "progress of the reader (that it eventually drains) is exercised by the correspondence and the predicates only; "
-           "splice-from-another-session tampering is not generated.")
+PARTIAL = ("Proved in Coq for every operation list, transport script, write/read size and every tampering function: "
+           "no panic and no fuel exhaustion, buffer sizes, poll_write result, frame bounds and in-order whole frames "
+           "(nonce = frame index), delivered = prefix of accepted under the authenticity premise, and without tampering "
+           "(correct AEAD only) prefix + equality after flush and drain. Not proved in Coq: that byte-level tamperings "
+           "(bit flips, junk, truncation inside a frame) satisfy the authenticity premise - that is the integrity half of "
+           "H-AEAD, a cryptographic assumption (C13_nonce_binding covers moved genuine frames abstractly); progress of the "
+           "reader (that it eventually drains; that a full frame buffer is never mistaken for end of stream), stickiness of "
+           "the decrypt error and end-of-stream on truncation inside a frame are checked by the correspondence and the "
+           "predicates only; the release profile (debug assertions off) is not modelled; splice-from-another-session "
+           "tampering is represented by junk-frame insertion only.")
 
 
 def replay(path):
